@@ -4,6 +4,8 @@ CONSTANTS
   Containers = {1, 2, 3, 4, 5, 6}
   Nums = {}
   DevFirstWins = FALSE
+  DeferU = {}
+  DevStopAtFirstFailure = FALSE
   DropU = {}
   Emit = TRUE
 INVARIANTS Deterministic EmitInv
